@@ -180,7 +180,8 @@ func seqScenario(cc copyCase, cfg string, withP bool) engine.Scenario {
 			c.Fail(sig+o.name+"/copy-behaves-differently", "result of %s on the copy differs from the original's: %s vs %s", o.name, short(rC), short(rA))
 		}
 		// --- using the copy must not touch the original
-		if cc.kind == shallow {
+		if cc.kind == shallow || cc.concurrent {
+			// (also for a rebinding copy whose documentation promises reallocated buffers and concurrent use)
 			if d := sOrigBefore.Diff(take("x", ob)); len(d) > 0 {
 				c.Fail(sig+o.name+"/use-of-copy-writes-original"+normPath(d[0]), "running %s on the copy wrote memory reachable from the original: %s", o.name, strings.Join(first(d, 3), "; "))
 			}
